@@ -305,29 +305,21 @@ func MergeHeaders(src []*Header) (h *Header, reflinks [][]*Reference, err error)
 	h = src[0].Clone()
 	h.SortOrder = UnknownOrder
 	h.GroupOrder = GroupUnspecified
-	for i, add := range src {
-		if i == 0 {
-			reflinks[i] = h.refs
-			continue
-		}
-		links := make([]*Reference, len(add.refs))
-		for id, r := range add.refs {
-			r = r.Clone()
-			err := h.AddReference(r)
+	for _, add := range src[1:] {
+		for _, r := range add.refs {
+			err := h.AddReference(r.Clone())
 			if err != nil {
 				return nil, nil, err
 			}
-			if r.owner != h {
-				// r was not actually added, so use the ref
-				// that h owns.
-				for _, hr := range h.refs {
-					if equalRefs(r, hr) {
-						r = hr
-						break
-					}
-				}
-			}
-			links[id] = r
+		}
+	}
+	// Link the source references to the references that h owns in
+	// the end: a reference of h may have been replaced by a later,
+	// more detailed, reference of the same name.
+	for i, add := range src {
+		links := make([]*Reference, len(add.refs))
+		for id, r := range add.refs {
+			links[id] = h.refs[h.seenRefs[r.name]]
 		}
 		reflinks[i] = links
 	}
